@@ -500,16 +500,41 @@ class C18(Prop):
             return '\t'.join([c['op']] + list(c['args'][:2]))
         return c.line
 
+    def agree(self, c, io, mo):
+        """Strict equality on what the property constrains; a difference is tolerated only where the property is
+        silent.  The model marks that itself:
+          frame      `O:` = field values outside the wire ranges / the protocol version (WFMsg false);
+          parse      an entry that is not the canonical frame of the message returned (re-framing differs: bytes
+                     after the NUL of the command, left-over payload bytes, non-canonical counts), an unknown
+                     command (`none`), or an error raised inside msg_deser for a payload whose header, length and
+                     checksum were accepted (`@payload`).
+        Frames of in-domain messages, wrong magic, wrong checksum, truncation and impossible lengths are always
+        compared strictly, entry by entry, including the stream position."""
+        op = c['op']
+        if op in ('c18.frame', 'c18.frombytes'):
+            return io == mo[2:] or mo[:2] == 'O:'
+        ii, mm = io.split('~'), mo.split('~')
+        for k in range(max(len(ii), len(mm))):
+            a = ii[k] if k < len(ii) else ''
+            b = mm[k] if k < len(mm) else ''
+            strict = not (b.endswith('@payload') or b.endswith('@none@-') or b.endswith('@diff') or
+                          '@err:' in b)
+            if b.endswith('@payload'):
+                b = b[:-len('@payload')]
+            if a != b:
+                return not strict
+        return True
+
     # ---- generation -----------------------------------------------------------------------------
     def model_frames(self, items):
         """[(chain, msg)] -> [bytes | None] through the model's to_bytes"""
         outs = self.ask(['c18.frame\t%s\t%s' % (ch, show_msg(m)) for ch, m in items])
-        return [None if o.startswith(('err:', 'bad-')) else bytes.fromhex(o) for o in outs]
+        return [None if o[2:].startswith('err:') or o.startswith('bad-') else bytes.fromhex(o[2:]) for o in outs]
 
     def generate(self, rng, tier, shard, nshards):
         big = tier == 'thorough'
         # (a) framing: every type x generated values (in and out of range) x chains
-        per_type = max(1, (60 if big else 10) * 16 // nshards // 4)
+        per_type = max(3, (60 if big else 12) * 16 // nshards // 4)
         wf = []
         for kind in NAMES:
             for j in range(per_type * (3 if kind in ('version', 'addr') else 1)):
@@ -716,7 +741,7 @@ class C18(Prop):
             pos = int(last.split('@')[1])
             if pos >= 24 and struct.unpack('<I', data[pos - 8:pos - 4])[0] >= (1 << 31):
                 return 'D14-msglen-signed'
-        if op == 'c18.frombytes' and mo == 'err:sererr' and len(data) >= 24 and \
+        if op == 'c18.frombytes' and mo == 'W:err:sererr' and len(data) >= 24 and \
                 struct.unpack('<I', data[16:20])[0] >= (1 << 31):
             return 'D14-msglen-signed'
         # D15: the first entry on which the two sides differ is a `headers` frame
